@@ -11,9 +11,15 @@ C18 — properties are last-writer-wins and replicas converge. Executable model 
   /repo/pkg/index/inverted/inverted_series.go (UpdateSeriesBatch: bluge `Update(id, doc)` = replace by id)
 
 The model is of the code WITH fix F18a (`shard.repair`: on the same revision a tombstone is newer than the
-live document and the later tombstone wins; the document that the repaired one replaces is not tombstoned in the
-same batch; the liaison's `newerThan` uses the same order). The behaviour at the pinned commit is kept as
-`repairLegacy` / `simpleDedupLegacy…` for the counterexample theorems.
+live document and the later tombstone wins — `>=` instead of `==`; the liaison's `newerThan` uses the same order).
+The behaviour at the pinned commit is kept as `repairLegacy` / `simpleDedupLegacy…` for the counterexample theorems.
+
+Storage level: a shard is the LIST of its bluge documents in document-number order (= the order `AllMatches`
+delivers them). One bluge batch = `batchUpdate`: every stored document whose id occurs in the batch is removed, then
+ALL documents of the batch are appended — two documents of one batch with the same id are both stored. This happens
+when `shard.repair` puts a tombstone onto the live document of the same revision (the live one is re-written as
+deleted AND the incoming one inserted; upstream `TestRepair/repair deleted version property with same data` asserts
+the two documents). `buildDeleteFromTimeDocuments` looks the listed ids up with limit `len(ids)` (`hits`).
 
 Time: `time.Now()` of `Apply` is the argument `now`; the delete times taken by the data nodes
 (`deleteListener.Rev`, `shard.repair`) are drawn from a logical counter `clk` in the order in which the real
@@ -31,7 +37,7 @@ def searchLimit : Nat := 100
 
 /-- shape facts of the code the model mirrors (tied to the source text in Tie/C18.lean). -/
 def repairKeepsLaterTombstone : Bool := true     -- `…deleteTime >= deleteTime` in `shard.repair` (fix F18a)
-def repairSkipsReplacedDoc : Bool := true        -- `buildNotDeletedDocIDList` skips the id being replaced (fix F18a)
+def repairSkipsReplacedDoc : Bool := false       -- `buildNotDeletedDocIDList` does NOT skip the id being replaced
 def liaisonUsesNewerThan : Bool := true          -- `newerThan` in `findPrevAndOlderProperties` and both de-dups (fix F18a)
 
 /-- One bluge document = one revision of one property. `key` stands for `group/name/id` (group and name are
@@ -57,13 +63,22 @@ def upsert (s : Shard) (d : Doc) : Shard := s.filter (fun x => x.id != d.id) ++ 
 /-- `shard.search` with the query built for one entity (all revisions, deleted ones included). -/
 def docsOf (s : Shard) (k : String) : List Doc := s.filter (fun d => d.key == k)
 
-/-- `shard.deleteFromTime`: every stored document whose id is listed is rewritten with `deleteTime = t`
-    (also when it already carried a delete time). -/
-def markDeleted (s : Shard) (ids : List DocId) (t : Nat) : Shard :=
-  s.map fun d => if ids.contains d.id then { d with del := t } else d
+/-- one bluge batch of `Update(id, doc)` operations. -/
+def batchUpdate (s : Shard) (docs : List Doc) : Shard :=
+  s.filter (fun x => !(docs.any fun y => y.id == x.id)) ++ docs
 
-/-- the document with the highest revision (`sort.Sort(queryPropertySlice)` + last element in `shard.repair`,
-    the `latestProperty` loop in `repairGossipBase.queryProperty`). -/
+/-- `buildDeleteFromTimeDocuments`: exact-id search with limit `len(docID)`: the first `ids.length` stored documents
+    (document-number order) whose id is listed. -/
+def hits (s : Shard) (ids : List DocId) : List Doc := (s.filter fun x => ids.contains x.id).take ids.length
+
+def tomb (t : Nat) (x : Doc) : Doc := { x with del := t }
+
+/-- `shard.deleteFromTime`: the documents found for the listed ids are rewritten with `deleteTime = t`
+    (also when they already carried a delete time), in one batch. -/
+def markDeleted (s : Shard) (ids : List DocId) (t : Nat) : Shard := batchUpdate s ((hits s ids).map (tomb t))
+
+/-- the `latestProperty` loop in `repairGossipBase.queryProperty`: the document with the highest revision, the
+    FIRST one in search order among equals (`queried.timestamp > latestProperty.timestamp`). -/
 def latestOf : List Doc → Option Doc
   | [] => none
   | d :: ds =>
@@ -73,36 +88,47 @@ def latestOf : List Doc → Option Doc
 
 def top (s : Shard) (k : String) : Option Doc := latestOf (docsOf s k)
 
+/-- `sort.Sort(queryPropertySlice)` + last element in `shard.repair`: among documents of the highest revision the
+    LAST one in search order (the sort is an insertion sort, hence stable, for up to 12 documents). -/
+def latestLast : List Doc → Option Doc
+  | [] => none
+  | d :: ds =>
+    match latestLast ds with
+    | none => some d
+    | some e => if e.rev ≥ d.rev then some e else some d
+
+def topLast (s : Shard) (k : String) : Option Doc := latestLast (docsOf s k)
+
 /-- `newerThan` (fix F18a): revision first; on the same revision the greater delete time. -/
 def newer (p q : Doc) : Bool := p.rev > q.rev || (p.rev == q.rev && p.del > q.del)
 
 /-! ### shard.repair -/
 
-/-- `buildNotDeletedDocIDList` (fixed): live documents of the entity except the one being replaced. -/
-def liveIdsExcept (docs : List Doc) (id : DocId) : List DocId :=
-  (docs.filter fun d => d.del == 0 && d.id != id).map Doc.id
+/-- `buildNotDeletedDocIDList`: ids of the live documents of the entity. -/
+def liveIds (docs : List Doc) : List DocId := (docs.filter fun d => d.del == 0).map Doc.id
 
-/-- `shard.repair(id, property, deleteTime)`; `t` is the `time.Now()` used to tombstone older documents.
+/-- the batch `shard.repair` writes when it accepts: the live documents found are rewritten as deleted at `t`, then
+    the incoming document. -/
+def repairBatch (s : Shard) (d : Doc) (t : Nat) : List Doc :=
+  (hits s (liveIds (docsOf s d.key))).map (tomb t) ++ [d]
+
+/-- `shard.repair(id, property, deleteTime)` (fixed); `t` is the `time.Now()` used to tombstone older documents.
     Returns the new shard, `updated`, and `selfNewer`. -/
 def repair (s : Shard) (d : Doc) (t : Nat) : Shard × Bool × Option Doc :=
-  match top s d.key with
+  match topLast s d.key with
   | none => (upsert s d, true, none)
   | some l =>
     if l.rev > d.rev || (l.rev == d.rev && l.del ≥ d.del) then (s, false, some l)
-    else (upsert (markDeleted s (liveIdsExcept (docsOf s d.key) d.id) t) d, true, none)
+    else (batchUpdate s (repairBatch s d t), true, none)
 
 /-- `shard.repair` at the pinned commit: refuses only an equal `(rev, deleteTime)`; otherwise the incoming
-    document overwrites (a live document overwrites a tombstone of the same revision), and a live document of
-    the same id is tombstoned AND re-inserted in one batch (two documents with one id). -/
+    document overwrites — a live document overwrites a tombstone of the same revision. -/
 def repairLegacy (s : Shard) (d : Doc) (t : Nat) : Shard × Bool × Option Doc :=
-  match top s d.key with
+  match topLast s d.key with
   | none => (upsert s d, true, none)
   | some l =>
     if l.rev > d.rev || (l.rev == d.rev && l.del == d.del) then (s, false, some l)
-    else
-      let live := (docsOf s d.key).filter fun x => x.del == 0
-      let same := live.filter fun x => x.id == d.id
-      (upsert (markDeleted s (live.map Doc.id) t) d ++ same.map (fun x => { x with del := t }), true, none)
+    else (batchUpdate s (repairBatch s d t), true, none)
 
 /-! ### one leaf of one gossip exchange (`repair_gossip.go`) -/
 
@@ -115,8 +141,8 @@ def gossipLeaf (cl sv : Shard) (k : String) (clk : Nat) : Shard × Shard × Stri
     -- sendPropertyMissing → processPropertyMissing → client repairs (From = MISSING: nothing is sent back)
     let (cl', u, _) := repair cl sd clk
     (cl', sv, "mC" ++ (if u then "1" else "0"), clk + 1)
-  | some cd, osd =>
-    if osd == some cd then (cl, sv, "=", clk)     -- equal leaf hash: not selected
+  | some cd, _ =>
+    if topLast sv k == topLast cl k then (cl, sv, "=", clk)     -- equal leaf hash (built from the last newest document): not selected
     else
       -- queryPropertyAndSendToServer → processPropertySync
       let (sv', u, nw) := repair sv cd clk
@@ -126,9 +152,9 @@ def gossipLeaf (cl sv : Shard) (k : String) (clk : Nat) : Shard × Shard × Stri
         let (cl', u', nw') := repair cl n (clk + 1)
         match u', nw' with
         | false, some n' =>
-          -- client sends its newer one again (cannot happen with the fixed order; kept for the mirror)
+          -- client sends its newer one again; if the server refuses again the two messages repeat for ever ("~")
           let (sv'', u'', _) := repair sv' n' (clk + 2)
-          (cl', sv'', "S0C0S" ++ (if u'' then "1" else "0"), clk + 3)
+          (cl', sv'', "S0C0S" ++ (if u'' then "1" else "0~"), clk + 3)
         | _, _ => (cl', sv', "S0C" ++ (if u' then "1" else "0"), clk + 2)
       | _, _ => (cl, sv', "S" ++ (if u then "1" else "0"), clk + 1)
 
